@@ -17,7 +17,7 @@ git apply "$S/patch.diff"
 cargo build --offline -p bindgen-cli 2>&1 | tail -1
 bash "$S/demo.sh" > "$S/demo.with.log" 2>&1; DW=$?
 echo "demo with change: exit $DW"
-cargo nextest run --workspace --no-fail-fast --tool-config-file pb:/w/lib/nextest.toml --profile pb --test-threads 6 --offline > "$S/nextest.confirm.log" 2>&1
+cargo nextest run --workspace --no-fail-fast --tool-config-file pb:/w/lib/nextest.toml --profile pb --test-threads 6 --offline < /dev/null > "$S/nextest.confirm.log" 2>&1
 SUMMARY=$(grep -E "Summary" "$S/nextest.confirm.log" | tail -1)
 FAILS=$(grep -E "^\s+FAIL" "$S/nextest.confirm.log" | awk '{print $NF}' | sort -u | tr '\n' ' ')
 echo "suite with change: $SUMMARY | failing: $FAILS"
